@@ -121,6 +121,9 @@ def run(ctx):
         ie, ia, faithful, me, ma = rep.split()
         ctx.evaluations += 1
         ctx.count('impl-model.' + ('theorem-applies' if faithful == 'T' else 'outside-hypothesis'))
+        if impl_eq is None and impl_ac is None:
+            ctx.count('impl-model.implementation-raised')      # reported as a failure by one_pair (finding D41 when it is the RecursionError of unify)
+            continue
         if faithful != 'T':
             ctx.disagree('Eq.faithful: the pair is outside the hypothesis of C13b.compareImpl_eq_compareModel (a unification failed on '
                          'intersecting patterns, or the model ran out of fuel)', case, 'T', faithful)
@@ -148,7 +151,7 @@ def one_pair(ctx, kind, t, u, rtol, atol, reqs, meta):
             res[name] = bool(f(t, u))
         except Exception as e:  # noqa
             res[name] = e
-            ctx.fail(f'{name} raised {type(e).__name__}: {str(e)[:80]}', case, repr(e), None, tags=['raises', name])
+            ctx.fail(f'{name} raised {type(e).__name__}: {str(e)[:80]}', case, repr(e), None, tags=['raises', name, type(e).__name__])
     if res.get('equal') is not None and not isinstance(res['equal'], Exception) and res['equal'] != want_eq:
         ctx.fail(f't.equal(u) = {res["equal"]} but torch.equal of the dense tensors = {want_eq}', case, res['equal'], want_eq, tags=['equal', kind])
     if not isinstance(res.get('equal-swapped'), Exception) and not isinstance(res.get('equal'), Exception) and res['equal'] != res['equal-swapped']:
